@@ -18,6 +18,7 @@ import traceback
 
 VERIF = os.path.dirname(os.path.dirname(os.path.abspath(__file__)))
 REPO = os.path.abspath(os.environ.get("CYECCA_REPO", "/repo"))
+OUT = os.path.abspath(os.environ.get("VERIF_OUT", VERIF))  # where evidence/ and replays/ are written
 
 
 class Violation(Exception):
@@ -245,6 +246,8 @@ def _run_cell_shard_inner(cell, res, shard, n_examples, seed_val, tier):
                 return
 
     strat = cell.strategy(tier) if callable(cell.strategy) and not hasattr(cell.strategy, "example") else cell.strategy
+    # a dict {label: strategy} = forced stratification: the budget is split evenly over the labels
+    strata = list(strat.items()) if isinstance(strat, dict) else [(None, strat)]
     last_fail = {}
 
     def body(case):
@@ -293,6 +296,17 @@ def _run_cell_shard_inner(cell, res, shard, n_examples, seed_val, tier):
 
     if n_examples <= 0:
         return
+    per = max(1, int(math.ceil(n_examples / len(strata))))
+    for si, (label, strat1) in enumerate(strata):
+        _hyp_run(cell, res, body, strat1, per, (seed_val + 104729 * si) % (2**63), last_fail, in_hyp)
+        if res["violation"] or res["error"]:
+            return
+
+
+def _hyp_run(cell, res, body, strat, n_examples, seed_val, last_fail, in_hyp):
+    import hypothesis
+    from hypothesis import HealthCheck, Phase, given, settings
+
     phases = [Phase.generate, Phase.target]
     if cell.shrink:
         phases.append(Phase.shrink)
@@ -475,10 +489,10 @@ def run_property(prop_id, cells, *, rule, assumptions=(), matchers=None, tier="q
 
     wall = time.time() - t0
     rc = 0
-    os.makedirs(os.path.join(VERIF, "evidence"), exist_ok=True)
+    os.makedirs(os.path.join(OUT, "evidence"), exist_ok=True)
     replay_paths = []
     for v in violations:
-        d = os.path.join(VERIF, "replays", prop_id)
+        d = os.path.join(OUT, "replays", prop_id)
         os.makedirs(d, exist_ok=True)
         h = hashlib.blake2b(json.dumps([v["cell"], v["case"]], sort_keys=True).encode(), digest_size=5).hexdigest()
         path = os.path.join(d, "%s-%s.json" % (v["cell"].replace("/", "_").replace(" ", ""), h))
@@ -486,7 +500,7 @@ def run_property(prop_id, cells, *, rule, assumptions=(), matchers=None, tier="q
             json.dump({"property": prop_id, "cell": v["cell"], "case": v["case"], "message": v["msg"],
                        "details": v["details"], "seed": seed, "tier": tier}, f, indent=1)
         replay_paths.append(path)
-        print("VIOLATION property=%s replay=%s" % (prop_id, os.path.relpath(path, VERIF)))
+        print("VIOLATION property=%s replay=%s" % (prop_id, os.path.relpath(path, OUT) if OUT == VERIF else path))
         print("  cell=%s :: %s" % (v["cell"], v["msg"][:500]))
         rc = 1
     for k in known:
@@ -517,7 +531,7 @@ def run_property(prop_id, cells, *, rule, assumptions=(), matchers=None, tier="q
         "wall_s": round(wall, 2),
         "violations": len(violations),
     }
-    with open(os.path.join(VERIF, "evidence", prop_id + ".json"), "w") as f:
+    with open(os.path.join(OUT, "evidence", prop_id + ".json"), "w") as f:
         json.dump(ev, f, indent=1)
     print("%s tier=%s seed=%d cells=%d evaluations=%d distinct_nontrivial=%d violations=%d wall=%.1fs" % (
         prop_id, tier, seed, len(per_cell), evals, len(nontriv), len(violations), wall))
